@@ -396,7 +396,7 @@ def _absorb(ck, out, viol, worst, origin, tag):
             ck.case(key, nontrivial=False)
             ck.inconclusive(info.get("why", "oracle undecided"))
             continue
-        ck.case(key, nontrivial=nontriv, sample=dict(origin=origin, kind=kind, **{k: info[k] for k in ("order", "nf", "a0", "a1", "observed", "expected", "rel", "method", "solve") if k in info}) if i == 3 else None)
+        ck.case(key, nontrivial=nontriv, sample=dict(origin=origin, kind=kind, **{k: info[k] for k in ("order", "nf", "a0", "a1", "observed", "expected", "rel", "method", "solve") if k in info}) if (i == 3 or not ck.samples) else None)
         if kind == "qcd":
             ck.hit(f"contract_ns_dispatcher_{origin}")
             ck.hit(f"order{info['order'][0]}_nf{info['nf']}")
@@ -433,9 +433,11 @@ def replay(ck, rep):
         if "aem" in w and "mu2_from" in w and "as_list" not in w:
             g = np.array([[cx(x) for x in row] for row in w["gamma"]])
             qns.fixed_alphaem_exact(tuple(w["order"]), g, w["a1"], w["a0"], w["aem"], w["nf"], w["mu2_from"], w["mu2_to"])
+            qns.fixed_alphaem_exact(tuple(w["order"]), g, w["a0"], w["a1"], w["aem"], w["nf"], w["mu2_to"], w["mu2_from"])  # and its inverse path
         elif "method" in w:
             g = np.array([cx(x) for x in w["gamma"]])
             ns.dispatcher(tuple(w["order"]), EvoMethods[w["method"]], g, w["a1"], w["a0"], w["nf"])
+            ns.dispatcher(tuple(w["order"]), EvoMethods[w["method"]], g, w["a0"], w["a1"], w["nf"])  # and its inverse path
     finally:
         undo()
     viol, worst = _Viol(), {"qcd": 0.0, "qed": 0.0}
